@@ -184,11 +184,25 @@ def check_reasons(cfg, crate, rep):
     for k in got:
         if k not in REASONS:
             rep.fail("C08.reason", "%s|%s" % (cfg, k), "reason without a reference code")
-    # ENUMERATED value is the discriminant cast
+    # the ENUMERATED value written for every reason is its RFC code: either the discriminant cast of the entry's reason
+    # (the discriminants were just compared with the RFC table) or, specialised per variant, a constant equal to the code
+    from interp import specialise, variant_assignment, Interp as _I
     art = common.artefact(crate, CRL_FN)
     en = [n for n, p, c, r in S.walk(art.tbs) if n["t"] == "Prim" and n["kind"] == "ENUMERATED"]
-    ok = len(en) == 1 and isinstance(en[0]["args"][0], Via) and en[0]["args"][0].name.startswith("as:") and places(en[0]["args"][0]) == {"self.revoked_certs[].reason_code?"}
-    rep.ob("C08.reason", "%s|enumerated-is-discriminant" % cfg, ok, "reasonCode is written as the enum discriminant", found=[core(x["args"][0]).r() for x in en])
+    place = "self.revoked_certs[].reason_code?"
+    bad = {}
+    if len(en) == 1:
+        arg = en[0]["args"][0]
+        if isinstance(arg, Via) and arg.name.startswith("as:") and core(arg).r() == place:
+            pass
+        else:
+            for k_, want in REASONS.items():
+                x = core(specialise(arg, variant_assignment(arg, place, k_)))
+                val = art.I.concrete(x)
+                if val != want:
+                    bad[k_] = "%s (%s)" % (val, x.r()[:60])
+    ok = len(en) == 1 and not bad and places(en[0]["args"][0]) <= {place}
+    rep.ob("C08.reason", "%s|enumerated-is-discriminant" % cfg, ok, "reasonCode is written as the RFC 5280 code of the entry's reason (for every variant)", found=bad or [core(x["args"][0]).r()[:120] for x in en])
 
 
 def run(ctx):
